@@ -34,6 +34,11 @@ pub fn decode(tape: &[u16]) -> Case {
     all_observers(&mut cfg);
     let spec = sched_spec(&mut t);
     if soup {
+        if t.chance(1, 3) {
+            // a generated sparse observer set: locations after tag-scan <-> lexer mode switches
+            cfg = Cfg { encoding: enc, ..Cfg::default() };
+            crate::gens::handlers::observers(&mut t, &mut cfg, 3, 1);
+        }
         let input = input_in(&mut t, &InputOpts::default(), enc);
         let input = crate::gens::input::maybe_long(&mut t, input, 8);
         let cuts = spec.resolve(input.len());
@@ -178,11 +183,14 @@ pub fn check_soup(input: &[u8], cuts: &[usize], cfg: &Cfg, st: &mut Stats) -> PR
     if let Some(p) = r.panicked() {
         fail!("C14: panic: {p}");
     }
-    let mut prev_end = 0usize;
-    let mut prev_start = 0usize;
+    // successive tokens of ONE handler never overlap or go backwards (different handlers report
+    // the same token independently)
+    let mut last: std::collections::HashMap<String, (usize, usize)> = Default::default();
     for e in &r.events {
         let Some((a, b)) = e.loc() else { continue };
         ensure!(a <= b && b <= input.len(), "C14: location {a}..{b} outside the input (len {}) for {e:?}", input.len());
+        let key = format!("{}/{}", e.handler(), match e { Ev::Text { .. } => "t", Ev::Comment { .. } => "c", Ev::Doctype { .. } => "d", _ => "e" });
+        let (prev_start, prev_end) = last.get(&key).copied().unwrap_or((0, 0));
         match e {
             Ev::EndTag { .. } => {
                 // several elements may be closed by one end tag: same range repeated
@@ -190,8 +198,7 @@ pub fn check_soup(input: &[u8], cuts: &[usize], cfg: &Cfg, st: &mut Stats) -> PR
             }
             _ => ensure!(a >= prev_end, "C14: location {a}..{b} of {e:?} overlaps or precedes the previous token ending at {prev_end}"),
         }
-        prev_start = a;
-        prev_end = b;
+        last.insert(key, (a, b));
         let s = &input[a..b];
         match e {
             Ev::Element { name_pc, attrs, self_closing, .. } => {
@@ -229,6 +236,7 @@ pub fn check_soup(input: &[u8], cuts: &[usize], cfg: &Cfg, st: &mut Stats) -> PR
         norm(&r.events).map_err(|e| Failure::new(format!("C14: text chunk ranges: {e}")))?;
     }
     st.label("soup_invariants");
+    st.label_if(!cfg.sels.iter().any(|s| s.sel == "*") || cfg.docs.is_empty(), "soup_with_sparse_handlers");
     Ok(())
 }
 
@@ -266,7 +274,7 @@ impl Prop for C14 {
         }]
     }
     fn rule(&self) -> String {
-        "3/4 of cases: structured documents (generator owns the layout: mis-nested HTML, voids, raw-text elements, comments, doctypes, SVG/MathML islands with CDATA and integration points, odd attribute syntax) x schedule x observers (+ optional content-rewriting handlers); oracle: every reported element/end tag/comment/doctype/text-node range and every attribute name/value range equals the generator's (attribute ranges via the independent R-attr tokenizer), text chunks contiguous and covering. 1/4: byte soup, invariants only (ranges inside input, increasing, non-overlapping, <...> shaped, bytes at the range re-tokenise to the same tag/attributes). non-trivial = a cut lies inside a non-text token, a later token exists (reported after a buffer shift) and the document has >= 1 attribute; distinct by hash(doc,cuts)".into()
+        "3/4 of cases: structured documents (generator owns the layout: mis-nested HTML, voids, raw-text elements, comments, doctypes, SVG/MathML islands with CDATA and integration points, odd attribute syntax) x schedule x observers (+ optional content-rewriting handlers); oracle: every reported element/end tag/comment/doctype/text-node range and every attribute name/value range equals the generator's (attribute ranges via the independent R-attr tokenizer), text chunks contiguous and covering. 1/4: byte soup, under every observer or (1/3) a generated sparse observer set, invariants only (ranges inside input, per handler increasing and non-overlapping, <...> shaped, bytes at the range re-tokenise to the same tag/attributes). non-trivial = a cut lies inside a non-text token, a later token exists (reported after a buffer shift) and the document has >= 1 attribute; distinct by hash(doc,cuts)".into()
     }
     fn assumptions(&self) -> Vec<String> {
         vec!["R-attr (harness WHATWG start-tag tokenizer) defines attribute name/value bytes".into()]
